@@ -8,7 +8,7 @@
 From Resolvo Require Export Cdcl.Solver Float.Activity.
 
 Definition solve_default (U : provider) (P : problem) (fuel efuel : nat) (order : option (list task)) : outcome * sstate amap :=
-  solve U P amap a_ge (aconflict f_one f_095) fuel efuel [] order.
+  solve U P a_ge (aconflict f_one f_095) fuel efuel [] order.
 
 Definition levent_eqb (a b : levent) : bool :=
   match a, b with
@@ -62,6 +62,6 @@ Definition check_solver (U : provider) (P : problem) (fuel efuel : nat) (order :
            (kind : N) (res : list N) (evs : list levent) (db : list cl) (calls : list pcall)
   : N * bool * bool * bool * bool * N :=
   let '(o, st) := solve_default U P fuel efuel order in
-  let lg := rev (s_log _ st) in
-  (outcome_code o, outcome_eqb o kind res, levents_eqb lg evs, cls_same_full (s_db _ st) db,
-   pcalls_eqb (e_calls (s_enc _ st)) calls, common_prefix lg evs 0).
+  let lg := rev (s_log st) in
+  (outcome_code o, outcome_eqb o kind res, levents_eqb lg evs, cls_same_full (s_db st) db,
+   pcalls_eqb (e_calls (s_enc st)) calls, common_prefix lg evs 0).
